@@ -1,7 +1,7 @@
 \* C12 thorough: lease actions with two identifiers and a clock, on graphs with a
 \* chain, a conflict pair and a coinbase.
 CONSTANTS
-  GraphIds = {1,3,4,5,7}
+  GraphIds = {1,3,4,7}
   MaxTip = 3
   Mat = 2
   LeaseIds = {1,2}
